@@ -1,0 +1,24 @@
+//go:build verif
+
+package escape
+
+import (
+	"html"
+	"net/url"
+	"strconv"
+)
+
+// Lemmas for the goverif VC generator (/verif): the three round trips, composed from the contracts
+// of the library pairs exactly as `escape | !escape` etc. compose them. Never called.
+
+func verifLemmaEscapeRoundTrip(s string) (string, error) {
+	return strconv.Unquote(strconv.Quote(s))
+}
+
+func verifLemmaHtmlRoundTrip(s string) string {
+	return html.UnescapeString(html.EscapeString(s))
+}
+
+func verifLemmaUrlRoundTrip(s string) (string, error) {
+	return url.PathUnescape(url.PathEscape(s))
+}
